@@ -59,7 +59,7 @@ def _chain(xs):
 
 @st.composite
 def top_tree(draw):
-    kind = draw(st.sampled_from(['arith', 'arith', 'cmp', 'amp', 'ampcmp', 'callcmp', 'cmpcmp', 'cmpchain', 'blankcmp', 'texterr', 'emptytext', 'huge']))
+    kind = draw(st.sampled_from(['arith', 'arith', 'cmp', 'amp', 'ampcmp', 'callcmp', 'cmpcmp', 'cmpchain', 'blankcmp', 'texterr', 'emptytext', 'huge', 'negerr']))
     if kind == 'arith':
         t = draw(arith_tree)
         if draw(st.booleans()):
@@ -107,6 +107,15 @@ def top_tree(draw):
         t = ['bin', op, big, other] if draw(st.booleans()) else ['bin', op, other, big]
         if draw(st.booleans()):
             t = ['bin', draw(st.sampled_from(gf.ARITH)), t, draw(st.sampled_from([['dec', '0.5'], ['num', '2'], big]))]
+    elif kind == 'negerr':
+        # unary minus over an operand whose value is an error (a zero divisor, text under arithmetic): the error is the value, as under the binary operators
+        e = draw(st.sampled_from([['paren', ['bin', '/', ['num', '1'], ['num', '0']]], ['paren', ['bin', '/', ['num', '4'], ['bin', '-', ['num', '2'], ['num', '2']]]],
+                                  ['paren', ['bin', '+', ['str', 'x', '"'], ['num', '1']]], ['call', 'ID', [['bin', '/', ['var', 'v_a'], ['var', 'v_zero']]]]]))
+        t = ['neg', e]
+        if draw(st.booleans()):
+            t = ['neg', ['paren', t]] if draw(st.booleans()) else ['bin', draw(st.sampled_from(gf.ARITH)), draw(int_leaf), t]
+        if draw(st.booleans()):
+            t = ['bin', draw(st.sampled_from(gf.ARITH)), t, draw(int_leaf)]
     elif kind == 'cmpchain':
         # a chain of comparisons of one rank, written without parentheses: it reads from the left
         small = st.sampled_from([['num', '0'], ['num', '1'], ['num', '2'], ['dec', '1.0'], ['var', 'v_one'], ['var', 'v_zero'], ['cell', 'B2']])
@@ -297,6 +306,14 @@ def nontrivial(case):
 
 def classes(case):
     out = structure(case['tree'])
+    for n in gf.walk(case['tree']):
+        if n[0] == 'neg':
+            try:
+                if isinstance(gf.ref_eval(n[1], env_ref()), Err):
+                    out.append('minus-over-error-value')
+                    break
+            except Exception:
+                pass
     if nontrivial(case):
         out.append('grouping-sensitive')
     return out
@@ -360,7 +377,7 @@ LAWS = [
         strategy=st.fixed_dictionaries({'fail': st.lists(st.sampled_from(FAILING), min_size=1, max_size=60)}), nontrivial=lambda c: len(c['fail']) >= 10,
         rule='1-60 evaluations that fail inside open parentheses (unknown names, truncated formulas, stray characters), then four parenthesised formulas on the same and on a fresh parser: values unchanged'),
     Law('tree_value', check, strategy=top_tree(), classes=classes, nontrivial=nontrivial, quick=12000, thorough=300000, shards=(16, 16),
-        required=('mixed-levels', 'right-compound-same-level', 'neg-under-binary', 'comparison', 'amp', 'call', 'grouping-sensitive', 'two-nested-evaluations', 'joined-text-under-arithmetic', 'text-with-line-break-or-backslash'),
+        required=('mixed-levels', 'right-compound-same-level', 'neg-under-binary', 'comparison', 'amp', 'call', 'grouping-sensitive', 'two-nested-evaluations', 'joined-text-under-arithmetic', 'text-with-line-break-or-backslash', 'minus-over-error-value'),
         rule='tree rendered three ways (minimal parentheses per the stated precedence, every sub-expression parenthesised, minimal plus generated redundant pairs); each must evaluate to the native value of the tree '
              '(ints as ints, floats bit-identical, booleans, concatenated text, #DIV/0!); non-trivial = two binary operators of different levels, a compound right operand of the same level or a unary minus under a binary operator, '
              'AND some re-association of the minimal rendering evaluates differently (a precedence slip would be visible)'),
